@@ -58,7 +58,7 @@ digit2int(const char c)
 {
     uint64_t rv = 0u;
     while (rv < 16) {
-        if (digits[rv] == c)
+        if (digits[rv] == tolower((unsigned char)c))
             return rv;
         rv++;
     }
